@@ -59,6 +59,8 @@ Schema(ovs) == [map |-> ConcatMaps(ovs, 1), style |-> PickParam(ovs, "style", 1)
 \*           a position) but the constructor does not take it (dataclass / attrs field(init=False), a computed field): the
 \*           dumper writes it, the loader does not know it, the loaded object holds what the constructor derives (DerivedV).
 \*           "Position at the list is determined by order of field definition": ONE numbering for both directions.
+\*   ty      "int" | "str" | "any" | "dec" (a type whose external representation differs from the value: Decimal <-> str; the
+\*           model's values are abstract, so this only matters to the concretisation - and to the code)
 \*   req     required on input (no default / Required key)        oreq    the accessor cannot fail (everything but optional TypedDict keys)
 \*   hasdfl  a default is declared (never for TypedDict keys)
 \*   ctordfl the constructor itself applies the declared default to a parameter it is not given (not SQLAlchemy: column defaults
